@@ -134,7 +134,7 @@ package runtimev2
 //@ | elemsof(any), maptype(map[string]any)
 
 //@ func RunExpr
-//@ props C18 C19
+//@ props C18
 //@ modifies v2Frame
 
 //@ functype FnCall
